@@ -1,6 +1,7 @@
 package main
 
 import (
+	"os"
 	"time"
 	"fmt"
 	"go/ast"
@@ -112,7 +113,12 @@ type FuncVC struct {
 	bounded     bool
 	boundActive []string
 	noFacts     int
+	boundSorts  []string   // sorts of boundActive entries ("" for non-quantifier bindings)
+	qfacts      [][]string // facts about quantified terms, per open quantifier
 	recSpecs    map[string]*recSpecInfo
+	noTerm      []string
+	covered     map[string]bool
+	allocOrder  map[*ssa.Alloc]int
 }
 
 type loopInfo struct {
@@ -717,8 +723,9 @@ func (f *FuncVC) mergeStates(b *ssa.BasicBlock, ins []*edgeState) *State {
 		conds = append(conds, e.cond)
 	}
 	st.pc = f.sc.define(fmt.Sprintf("pc.b%d", b.Index), "Bool", or(conds...))
-	// cells present in all
-	for a, v0 := range ins[0].st.cells {
+	// cells present in all (deterministic order)
+	for _, a := range f.sortedCells(ins[0].st.cells) {
+		v0 := ins[0].st.cells[a]
 		vals := []*Val{v0}
 		all := true
 		for _, e := range ins[1:] {
@@ -928,24 +935,75 @@ func (f *FuncVC) pureFacts(st *State, v *Val) {
 	if f.noFacts > 0 {
 		return
 	}
+	emit := func(term string, fact string) {
+		if f.mentionsBound(term) {
+			// the fact is about a term under a quantifier: assert it as a
+			// typing axiom of the heap, universally quantified over the
+			// bound variables it mentions ("heap M:T holds values of type T")
+			if len(f.qfacts) == 0 || os.Getenv("GVC_NO_QFACTS") != "" {
+				return
+			}
+			var decls []string
+			for i, b := range f.boundActive {
+				if strings.Contains(fact, b) && i < len(f.boundSorts) && f.boundSorts[i] != "" {
+					decls = append(decls, "("+b+" "+f.boundSorts[i]+")")
+				}
+			}
+			if len(decls) == 0 {
+				return
+			}
+			for _, b := range f.boundActive {
+				if strings.Contains(fact, b) {
+					found := false
+					for _, d := range decls {
+						if strings.HasPrefix(d, "("+b+" ") {
+							found = true
+						}
+					}
+					if !found {
+						return // mentions a heap/parameter variable of a spec definition
+					}
+				}
+			}
+			// trigger on the loaded term itself, so the axiom is only
+			// instantiated where that term occurs
+			pat := ""
+			if strings.HasPrefix(term, "(select ") && !strings.Contains(term, "(ite ") {
+				all := true
+				for _, d := range decls {
+					bn := d[1:strings.Index(d, " ")]
+					// the bound variable must be a direct index of a select:
+					// triggers with arithmetic on bound variables are unstable
+					if !strings.Contains(term, " "+bn+")") {
+						all = false
+					}
+				}
+				if all {
+					pat = term
+				}
+			}
+			if pat == "" {
+				return // no usable trigger: skip rather than risk an unguided axiom
+			}
+			f.fact(st, "(forall ("+strings.Join(decls, " ")+") (! "+fact+" :pattern ("+pat+")))")
+			return
+		}
+		f.fact(st, fact)
+	}
 	switch v.K {
 	case KInt:
-		if b := basicOf(v.Ty); b != nil && !f.mentionsBound(v.T) {
+		if b := basicOf(v.Ty); b != nil {
 			if lo, hi, ok := intRange(b); ok {
-				f.fact(st, and(cmp("<=", numBig(lo), v.T), cmp("<=", v.T, numBig(hi))))
+				emit(v.T, and(cmp("<=", numBig(lo), v.T), cmp("<=", v.T, numBig(hi))))
 			}
 		}
 	case KSlice:
-		for _, c := range v.Fs {
-			if f.mentionsBound(c.T) {
-				return
-			}
-		}
-		f.assertSliceWF(st, v)
+		ref, off, ln, cp := v.Fs[0].T, v.Fs[1].T, v.Fs[2].T, v.Fs[3].T
+		emit(ref+off+ln+cp, and(cmp(">=", ref, "0"), cmp("<", ref, st.wm), cmp(">=", off, "0"), cmp(">=", ln, "0"), cmp("<=", ln, cp),
+			implies(eq(ref, "0"), eq(cp, "0")), cmp("<=", arith("+", off, cp), maxElems)))
 	case KIface:
-		if !f.mentionsBound(v.Fs[0].T) && !f.mentionsBound(v.Fs[1].T) {
-			f.assertIfaceWF(st, v)
-		}
+		tag, pay := v.Fs[0].T, v.Fs[1].T
+		emit(tag+pay, and(cmp(">=", tag, "0"), implies(eq(tag, "0"), eq(pay, "0")), cmp("<", pay, st.wm)))
 	case KStruct, KTuple:
 		for _, c := range v.Fs {
 			f.pureFacts(st, c)
@@ -961,4 +1019,15 @@ func (f *FuncVC) fact(st *State, term string) {
 		return
 	}
 	f.sc.assert(implies(st.pc, term))
+}
+
+// sortedCells returns the allocs of a cell map in program order, so that the
+// generated script (and with it the solver's behaviour) is deterministic.
+func (f *FuncVC) sortedCells(m map[*ssa.Alloc]*Val) []*ssa.Alloc {
+	out := make([]*ssa.Alloc, 0, len(m))
+	for a := range m {
+		out = append(out, a)
+	}
+	sort.Slice(out, func(i, j int) bool { return f.allocOrder[out[i]] < f.allocOrder[out[j]] })
+	return out
 }
